@@ -4,8 +4,9 @@
 //   - "e is <constant prefix> + v.Name()": the prefix may be a literal, a named constant, built by fmt.Sprintf, or
 //     computed by a one-line package function (protocolId(v.Name()));
 //   - "F connects the FIRST channel of <recv>.channels whose protocol id equals the requested one, and reports an
-//     error when there is none": the first-match loop may stand in F itself or in a lookup helper returning
-//     (channel, found); the matched-channel path may continue in further helpers (OpenConnection sites are counted
+//     error when there is none": the first-match loop (guarded body or `if id != ... { continue }` form) may stand in F
+//     itself or in a lookup helper returning (channel, found) or just the channel (nil = none); the matched-channel
+//     path may continue in further helpers (OpenConnection sites are counted
 //     through them, and every site must be a call on the matched channel);
 //   - the shape of Channels.Filter / Channels.Find independent of the names of locals and of equivalent spellings of
 //     "the list is empty".
@@ -325,32 +326,132 @@ func c03endsInReturn(stmts []ast.Stmt) bool {
 	return ok
 }
 
-// firstMatchLoop: s is `for _, v := range <recv>.channels { if <proto> == <prefix>+v.Name() { BODY } }` with nothing
-// else in the loop.  Returns prefix, v, BODY.
+// neqProto: cond is `<proto> != <prefix>+v.Name()` or `!(<proto> == <prefix>+v.Name())`.
+func (p *c03pkg) neqProto(cond ast.Expr, proto, v string) (string, bool) {
+	for {
+		pe, ok := cond.(*ast.ParenExpr)
+		if !ok {
+			break
+		}
+		cond = pe.X
+	}
+	if u, ok := cond.(*ast.UnaryExpr); ok && u.Op == token.NOT {
+		return p.eqProto(u.X, proto, v)
+	}
+	b, ok := cond.(*ast.BinaryExpr)
+	if !ok || b.Op != token.NEQ {
+		return "", false
+	}
+	return p.eqProto(&ast.BinaryExpr{X: b.X, Op: token.EQL, Y: b.Y}, proto, v)
+}
+
+// c03isContinue: the statements (logging aside) are exactly one unlabelled `continue`.
+func c03isContinue(stmts []ast.Stmt) bool {
+	n := 0
+	for _, s := range stmts {
+		if c03isLog(s) {
+			continue
+		}
+		br, ok := s.(*ast.BranchStmt)
+		if !ok || br.Tok != token.CONTINUE || br.Label != nil {
+			return false
+		}
+		n++
+	}
+	return n == 1
+}
+
+// firstMatchLoop: s is a loop `for _, v := range <recv>.channels` whose body, logging aside, runs BODY for the first
+// v with <proto> == <prefix>+v.Name() and does nothing for the others.  Accepted spellings of the body:
+//
+//	if <proto> == id(v) { BODY }
+//	if <proto> == id(v) { BODY } else { continue }
+//	if <proto> != id(v) { continue } ; BODY          (also `!(<proto> == id(v))`)
+//	if <proto> != id(v) { continue } else { BODY }
+//
+// BODY ends in a return and has no break/continue/goto, so the loop never looks at a later channel once one matched.
+// Returns prefix, v, BODY.
 func (p *c03pkg) firstMatchLoop(s ast.Stmt, recv, proto string) (string, string, []ast.Stmt, bool) {
 	rs, v := c03rangeOverChannels(s, recv)
-	if rs == nil || len(rs.Body.List) != 1 {
+	if rs == nil {
 		return "", "", nil, false
 	}
-	is, ok := rs.Body.List[0].(*ast.IfStmt)
-	if !ok || is.Init != nil || is.Else != nil {
+	var body []ast.Stmt
+	for _, bs := range rs.Body.List {
+		if !c03isLog(bs) {
+			body = append(body, bs)
+		}
+	}
+	if len(body) == 0 {
 		return "", "", nil, false
 	}
-	pre, ok := p.eqProto(is.Cond, proto, v)
-	if !ok || !c03endsInReturn(is.Body.List) {
+	is, ok := body[0].(*ast.IfStmt)
+	if !ok || is.Init != nil {
 		return "", "", nil, false
 	}
-	return pre, v, is.Body.List, true
+	var elseB []ast.Stmt
+	if is.Else != nil {
+		eb, ok := is.Else.(*ast.BlockStmt)
+		if !ok {
+			return "", "", nil, false
+		}
+		elseB = eb.List
+	}
+	var pre string
+	var found []ast.Stmt
+	if q, ok := p.eqProto(is.Cond, proto, v); ok {
+		// matched: the then-branch; not matched: nothing / continue, and nothing after the if
+		if len(body) != 1 || (is.Else != nil && !c03isContinue(elseB)) {
+			return "", "", nil, false
+		}
+		pre, found = q, is.Body.List
+	} else if q, ok := p.neqProto(is.Cond, proto, v); ok {
+		// not matched: continue; matched: the else-branch or what follows the if (never both)
+		if !c03isContinue(is.Body.List) {
+			return "", "", nil, false
+		}
+		switch {
+		case is.Else != nil && len(body) == 1:
+			found = elseB
+		case is.Else == nil && len(body) > 1:
+			found = body[1:]
+		default:
+			return "", "", nil, false
+		}
+		pre = q
+	} else {
+		return "", "", nil, false
+	}
+	if !c03endsInReturn(found) {
+		return "", "", nil, false
+	}
+	return pre, v, found, true
 }
 
 func c03isBoolLit(e ast.Expr, name string) bool { return c03isIdent(e, name) }
 
 // lookupHelper: method `func (r *T) h(p string) (Channel, bool)` whose body is the first-match loop returning
-// (v, true), followed by `return nil, false`.  Returns the prefix.
-func (p *c03pkg) lookupHelper(fd *ast.FuncDecl) (string, bool) {
+// (v, true), followed by `return nil, false`; or the single-result form `func (r *T) h(p string) Channel` returning v
+// from the loop and nil after it (an element of the list that is nil cannot be returned: v.Name() was called on it
+// first, so "result != nil" is exactly "found").  Returns the prefix and the number of results (2 or 1).
+func (p *c03pkg) lookupHelper(fd *ast.FuncDecl) (string, int, bool) {
 	names := c03paramNames(fd)
 	if fd.Body == nil || len(names) != 1 || names[0] == "" {
-		return "", false
+		return "", 0, false
+	}
+	reassigned := false
+	ast.Inspect(fd.Body, func(n ast.Node) bool {
+		if as, ok := n.(*ast.AssignStmt); ok {
+			for _, l := range as.Lhs {
+				if c03isIdent(l, names[0]) {
+					reassigned = true
+				}
+			}
+		}
+		return true
+	})
+	if reassigned {
+		return "", 0, false
 	}
 	var body []ast.Stmt
 	for _, s := range fd.Body.List {
@@ -359,26 +460,55 @@ func (p *c03pkg) lookupHelper(fd *ast.FuncDecl) (string, bool) {
 		}
 	}
 	if len(body) != 2 {
-		return "", false
+		return "", 0, false
 	}
 	pre, v, found, ok := p.firstMatchLoop(body[0], c03recvName(fd), names[0])
 	if !ok || len(found) != 1 {
-		return "", false
+		return "", 0, false
 	}
 	r := found[0].(*ast.ReturnStmt)
-	if len(r.Results) != 2 || !c03isIdent(r.Results[0], v) || !c03isBoolLit(r.Results[1], "true") {
-		return "", false
-	}
 	last, ok := body[1].(*ast.ReturnStmt)
-	if !ok || len(last.Results) != 2 || !c03isIdent(last.Results[0], "nil") || !c03isBoolLit(last.Results[1], "false") {
-		return "", false
+	if !ok || len(last.Results) != len(r.Results) {
+		return "", 0, false
 	}
-	return pre, true
+	switch len(r.Results) {
+	case 2:
+		if !c03isIdent(r.Results[0], v) || !c03isBoolLit(r.Results[1], "true") ||
+			!c03isIdent(last.Results[0], "nil") || !c03isBoolLit(last.Results[1], "false") {
+			return "", 0, false
+		}
+	case 1:
+		if !c03isIdent(r.Results[0], v) || !c03isIdent(last.Results[0], "nil") {
+			return "", 0, false
+		}
+	default:
+		return "", 0, false
+	}
+	return pre, len(r.Results), true
+}
+
+// c03nilTest: cond is `<v> == nil` (isNil) or `<v> != nil` (!isNil), either operand order.
+func c03nilTest(cond ast.Expr, v string) (isNil, ok bool) {
+	for {
+		pe, k := cond.(*ast.ParenExpr)
+		if !k {
+			break
+		}
+		cond = pe.X
+	}
+	b, k := cond.(*ast.BinaryExpr)
+	if !k || (b.Op != token.EQL && b.Op != token.NEQ) {
+		return false, false
+	}
+	if !((c03isIdent(b.X, v) && c03isIdent(b.Y, "nil")) || (c03isIdent(b.Y, v) && c03isIdent(b.X, "nil"))) {
+		return false, false
+	}
+	return b.Op == token.EQL, true
 }
 
 // firstMatch recognises, in fn (first parameter = the requested protocol id), the selection of the first channel of
 // <recv>.channels whose protocol id equals the request: either the loop itself, or a call of a lookup helper followed
-// by a test of its `found` result (either polarity, early return or if/else).
+// by a test of its `found` result, or of its only result against nil (either polarity, early return or if/else).
 func (p *c03pkg) firstMatch(fn *ast.FuncDecl) (*c03lookup, string) {
 	recv, names := c03recvName(fn), c03paramNames(fn)
 	if fn.Body == nil || len(names) == 0 || names[0] == "" {
@@ -423,7 +553,7 @@ func (p *c03pkg) firstMatch(fn *ast.FuncDecl) (*c03lookup, string) {
 			as, test, rest = a, t, list[i+1:]
 		}
 	}
-	if as == nil || as.Tok != token.DEFINE || len(as.Lhs) != 2 || len(as.Rhs) != 1 {
+	if as == nil || as.Tok != token.DEFINE || len(as.Lhs) < 1 || len(as.Lhs) > 2 || len(as.Rhs) != 1 {
 		return nil, "neither a first-match loop nor a lookup call"
 	}
 	call, ok := as.Rhs[0].(*ast.CallExpr)
@@ -438,23 +568,36 @@ func (p *c03pkg) firstMatch(fn *ast.FuncDecl) (*c03lookup, string) {
 	if helper == nil {
 		return nil, "lookup helper " + sel.Sel.Name + " not found"
 	}
-	pre, ok := p.lookupHelper(helper)
-	if !ok {
+	pre, nres, ok := p.lookupHelper(helper)
+	if !ok || nres != len(as.Lhs) {
 		return nil, "lookup helper " + sel.Sel.Name + " is not a first-exact-match loop"
 	}
 	cv, ok1 := as.Lhs[0].(*ast.Ident)
-	okv, ok2 := as.Lhs[1].(*ast.Ident)
-	if !ok1 || !ok2 || cv.Name == "_" || okv.Name == "_" {
+	if !ok1 || cv.Name == "_" {
 		return nil, "lookup results not bound"
 	}
 	lk := &c03lookup{prefix: pre, foundVar: cv.Name}
 	cond := test.Cond
 	neg := false
-	if u, ok := cond.(*ast.UnaryExpr); ok && u.Op == token.NOT {
-		neg, cond = true, u.X
-	}
-	if !c03isIdent(cond, okv.Name) {
-		return nil, "the found result is not tested"
+	if nres == 2 {
+		// the found flag is tested: `ok` / `!ok`
+		okv, ok2 := as.Lhs[1].(*ast.Ident)
+		if !ok2 || okv.Name == "_" {
+			return nil, "lookup results not bound"
+		}
+		if u, ok := cond.(*ast.UnaryExpr); ok && u.Op == token.NOT {
+			neg, cond = true, u.X
+		}
+		if !c03isIdent(cond, okv.Name) {
+			return nil, "the found result is not tested"
+		}
+	} else {
+		// the single result is tested against nil: `c != nil` (found) / `c == nil` (not found)
+		isNil, ok := c03nilTest(cond, cv.Name)
+		if !ok {
+			return nil, "the found result is not tested"
+		}
+		neg = isNil
 	}
 	thenB := test.Body.List
 	var elseB []ast.Stmt
